@@ -442,10 +442,19 @@ pub fn run_op(c: &mut Case, idx: usize, toks: &[&str]) -> String {
             c.shared.lock().unwrap().fault = Some((id.parse().unwrap(), k.parse().unwrap()));
             "ok:unit".to_string()
         }
+        ["setiofault", mode] => {
+            c.shared.lock().unwrap().io_fault = match *mode {
+                "r" => 1,
+                "w" => 2,
+                _ => 3,
+            };
+            "ok:unit".to_string()
+        }
         ["clearlog"] => {
             let mut sh = c.shared.lock().unwrap();
             sh.log.clear();
             sh.fault = None;
+            sh.io_fault = 0;
             "ok:unit".to_string()
         }
         _ => panic!("bad op {:?}", toks),
